@@ -1,34 +1,79 @@
 package replication
 
 // C03 - Append receipts are exact, contiguous and retry-stable.
-// Entry point of the shared replication world (../C01/world_test.go) with the C03 oracle.
+// Entry point of the shared replication world (../C01/world_test.go) with the C03 oracle,
+// wrapped by vw3 (c03_cold_test.go: command-lookup fault + narrow pending excuse).
 
 import (
+	"os"
 	"testing"
 
 	"github.com/WuKongIM/WuKongIM/pkg/zzverif/ev"
 	"github.com/WuKongIM/WuKongIM/pkg/zzverif/mc"
 )
 
+func vw3Run(r *ev.R, name string, o vwOpts, st *vwStats, xs *vw3Counters, anon bool, depth, devs int, note string) mc.Result {
+	depth, devs = vwDebugBounds(depth, devs)
+	o.noPrune = os.Getenv("VERIF_DEBUG_NOPRUNE") == "1"
+	b := vwBounds(o)
+	b["env_questions"].(map[string]bool)["command-lookup{ok,fails}"] = true
+	return mc.Run(r, mc.System{
+		Name: name, New: func() mc.Instance { return newVW3(o, st, xs, true, anon) },
+		MaxDepth: depth, MaxDeviations: devs, Bounds: b, Note: note,
+	})
+}
+
 func TestVerifC03(t *testing.T) {
 	r := ev.Start(t, "C03")
 	defer r.Finish()
 	st := &vwStats{}
-	run := func(name string, retained, depth, devs int) mc.Result { // nolint
-		o := vwOpts{
+	xs := &vw3Counters{}
+	base := func(retained int) vwOpts {
+		return vwOpts{
 			prop: "C03", cmds: 3, maxInstalls: ev.Pick(r, 1, 2), maxCrashes: ev.Pick(r, 1, 2), maxOutages: ev.Pick(r, 0, 1), retained: retained,
 			evConflict: true, evSame: true, evTrailing: true, evLocalLost: true, evHedge: r.Thorough(),
 			oC03: true, reportKF: false,
 		}
-		return vwRun(r, name, o, st, depth, devs, "N=3 voters, Q=2, one channel, commands c1 (1 record), c2 (2 records), c3 (1 record), each in an exact and a conflicting content variant; initial state: node 1 installed under (1,1,1); a path ends (silently, counted) at a transition that matches the known C01 defect KF-C01-1")
+	}
+	note := "N=3 voters, Q=2, one channel, commands c1 (1 record), c2 (2 records), c3 (1 record), each in an exact and a conflicting content variant; initial state: node 1 installed under (1,1,1); a path ends (silently, counted) at a transition that matches the known C01 defect KF-C01-1"
+	run := func(name string, retained, depth, devs int) mc.Result { // nolint
+		return vw3Run(r, name, base(retained), st, xs, false, depth, devs, note)
 	}
 	res := run("replication-world/C03/retained1-deep", 1, ev.Pick(r, 5, 6), ev.Pick(r, 0, 0))
 	res2 := run("replication-world/C03/retained1-mid", 1, ev.Pick(r, 4, 5), ev.Pick(r, 1, 1))
 	res3 := run("replication-world/C03/retained1-faulty", 1, ev.Pick(r, 3, 4), ev.Pick(r, 2, 2))
 	res4 := run("replication-world/C03/retained2", 2, ev.Pick(r, 4, 5), ev.Pick(r, 1, 1))
 	res.States += res3.States + res4.States
+
+	// MessageDB-backed box: the leader's and the followers' durable logs are real
+	// pkg/db/message stores, c1 / c2 are proposed with ServerAllocatedMessageIDs (sequenced
+	// fast path of the exact append), so "retry after owner restart / eviction" runs
+	// against the durable command index of the real store.
+	pool, err := newVWMDBPool()
+	if err == nil {
+		err = pool.selfTest()
+	}
+	if err != nil {
+		r.HarnessError("MessageDB-backed world unavailable: %v", err)
+	} else {
+		om := base(1)
+		om.backend = pool.lease
+		om.maxOutages, om.evHedge = 0, false
+		if !r.Thorough() {
+			om.evTrailing = false
+		}
+		mdb := vw3Run(r, "replication-world/C03/messagedb-retained1", om, st, xs, true, ev.Pick(r, 3, 4), ev.Pick(r, 0, 1),
+			note+"; every node's durable log is a real MessageDB (pkg/db/message on Pebble, in-memory vfs) channel store; c1, c2 are proposed with ServerAllocatedMessageIDs, c3 without")
+		r.Guard("messagedb-world-states", mdb.States >= 100, "%d states explored over MessageDB-backed stores", mdb.States)
+	}
+	if pool != nil {
+		pool.close()
+	}
 	vwAssumptions(r)
 	vwCounters(r, st)
+	r.Count("command_lookup_failed_executions_incl_replays", xs.lookupFailed.Load())
+	r.Count("exact_retry_refused_behind_pending_left_by_ambiguous_round_executions_incl_replays", xs.refusedByLegitPending.Load())
+	r.Count("pending_left_by_ambiguous_round_executions_incl_replays", xs.pendingLeftByAmbiguousRound.Load())
 	if r.Replay() != nil {
 		return
 	}
@@ -38,5 +83,7 @@ func TestVerifC03(t *testing.T) {
 	r.Guard("retry-of-pending-proposal", st.retryPendingAcked.Load() >= 1, "%d ambiguous (pending) proposals were acknowledged by a retry", st.retryPendingAcked.Load())
 	r.Guard("conflicting-retries-rejected", st.conflictRejected.Load() >= 10, "%d conflicting retries of acknowledged commands rejected", st.conflictRejected.Load())
 	r.Guard("retry-under-higher-authority", st.retryRefusedHigherAuthority.Load()+st.retryIdentical.Load() >= 1, "%d retries refused under a higher authority", st.retryRefusedHigherAuthority.Load())
+	r.Guard("command-lookup-failures", xs.lookupFailed.Load() >= 1, "%d cold retries whose durable command lookup failed", xs.lookupFailed.Load())
+	r.Guard("pending-left-by-ambiguous-round", xs.pendingLeftByAmbiguousRound.Load() >= 1, "%d proposals left pending by a round without a definite answer", xs.pendingLeftByAmbiguousRound.Load())
 	r.Guard("states", res.States+res2.States >= 100, "%d states", res.States+res2.States)
 }
